@@ -155,6 +155,10 @@ class Instance:
         new_instance = replace(self, **changes)
         if is_dataclass(self.origin_type):
             new_instance.__owner_builder = self.__self_builder
+        elif "name" not in changes:
+            # still a part of the same field: an overridden serialization
+            # method that has been applied must not be applied again
+            new_instance.__dict__["metadata"] = self.metadata
         return new_instance
 
     def __post_init__(self) -> None:
